@@ -428,6 +428,21 @@ func Run(j *job.Job, s *job.Sink) {
 				op{Kind: "process"})
 			s.Count("histories_with_a_rejected_file_read", 1)
 		}
+		// One history in eight has a module whose import is nowhere to be found at first (a run
+		// reports it as missing, a read may look for it as well); later a good file is read from
+		// a directory that also holds the missing module, which puts the directory on the search
+		// path. From then on the import resolves, as it does in a set that was never asked before.
+		if r.Intn(8) == 0 {
+			needs := op{"load", "zzneeds.yang", "module zzneeds {\n  namespace \"urn:zzneeds\";\n  prefix zn;\n  import zzlate { prefix zl; }\n  leaf l { type zl:t; }\n  identity mine { base zl:zlid; }\n}\n"}
+			other := op{"goodread", "zzother.yang", "module zzother {\n  namespace \"urn:zzother\";\n  prefix zo;\n  leaf o { type string; }\n}\n"}
+			tail := []op{needs}
+			if r.Intn(2) == 0 {
+				tail = append(tail, op{Kind: "earlyread"})
+			}
+			tail = append(tail, op{Kind: "process"}, other, op{Kind: "process"}, op{Kind: "read"})
+			ops = append(ops, tail...)
+			s.Count("histories_with_a_search_path_that_grows", 1)
+		}
 		s.Current(c, ops)
 		s.Count("histories", 1)
 		nproc, nbad := 0, 0
@@ -490,6 +505,20 @@ func Run(j *job.Job, s *job.Sink) {
 						return
 					}
 					failedLoads++
+				case "goodread":
+					dir, err := os.MkdirTemp(".", "goodread")
+					if err != nil {
+						continue
+					}
+					os.WriteFile(filepath.Join(dir, o.Name), []byte(o.Text), 0o644)
+					os.WriteFile(filepath.Join(dir, "zzlate.yang"), []byte("module zzlate {\n  namespace \"urn:zzlate\";\n  prefix zl;\n  typedef t { type int16; }\n  identity zlid;\n}\n"), 0o644)
+					defer os.RemoveAll(dir)
+					if err := ms.Read(filepath.Join(dir, o.Name)); err != nil {
+						bad("good-text-rejected", err.Error(), nil)
+						return
+					}
+					good = append(good, op{Kind: "goodread", Name: filepath.Join(dir, o.Name)})
+					lastClean = false
 				case "multi":
 					if err := ms.Parse(o.Text, o.Name); err == nil {
 						bad("generator", "bad text accepted: "+o.Name, nil)
@@ -595,7 +624,11 @@ func Run(j *job.Job, s *job.Sink) {
 					live := dump.Set(ms, perrs, true)
 					fresh := yang.NewModules()
 					for _, gd := range good {
-						fresh.Parse(gd.Text, gd.Name)
+						if gd.Kind == "goodread" {
+							fresh.Read(gd.Name)
+						} else {
+							fresh.Parse(gd.Text, gd.Name)
+						}
 					}
 					batch := dump.Set(fresh, fresh.Process(), true)
 					// quiescent-point snapshots of the set's unexported tables (verif hook
